@@ -39,6 +39,23 @@ def oracle(case, out):
         return "malformed harness output"
     evs, jobs, t = parse(out)
     limit = t["limit"]
+    if case[:1] == [5]:
+        outcome, control, ran, recovered = t["x"]
+        if t["hang"]:
+            return "thread creation refused at pool growth: the scenario did not finish within the watchdog (180 s)"
+        if outcome == 0 or control == 0:
+            return None        # the child died of the memory limit itself / the limit did not refuse a thread: not judged
+        if outcome == 4:
+            return "thread creation refused at pool growth: dispatch handed back a different closure"
+        if outcome == 3 and ran == 0:
+            return ("thread creation refused at pool growth: dispatch / Proactor::push reported the job as accepted "
+                    "(Ok / Pending) but it never ran and never completed (20 s): accepted and silently lost")
+        if outcome in (1, 2) and ran != 0:
+            return "thread creation refused at pool growth: dispatch reported failure (%d) but the job ran" % outcome
+        if recovered == 0:
+            return ("after a refused thread creation the pool no longer reaches its limit of %d concurrent jobs "
+                    "(the reserved slot was not given back)" % limit)
+        return None
     if case[:1] == [4] and t["x"][0]:
         return ("lost wake-up: a pool thread had sent the result of job %d and called the driver's waker at least "
                 "1.5 s before, yet the driver slept through its whole 4 s poll timeout (%d timed-out poll(s), "
@@ -109,8 +126,9 @@ class C17(diffcheck.DiffProp):
     rule = ("direct AsyncifyPool::new(limit 1-4, idle timeout 0-50 ms) driven from 1-4 dispatcher threads in phases "
             "(gaps beyond the timeout let workers retire), forced window at sched_point(10) with 2-4 dispatchers, "
             "1-4 proactors (io_uring / polling) sharing one pool with panicking Asyncify ops, Runtime::spawn_blocking, "
-            "k = 2-4 jobs leaving a spin barrier together while the driver sleeps in poll(4 s), 150-300 rounds per case "
-            "(300-800 thorough); "
+            "k = 2-4 jobs returning at one common instant while the driver sleeps in poll(4 s), 150-300 rounds per case "
+            "(300-600 thorough), thread creation refused by RLIMIT_AS exactly at pool growth (child process; direct "
+            "dispatch with 0..L-1 busy workers, Proactor::push on both drivers); at least 12 cases of each class; "
             "non-trivial = a slot was reserved, a worker spawned and a job ran; distinct = distinct cases")
     trusted_base = [
         "Coq 8.16.1 kernel (coqc, full .vo build)",
@@ -164,6 +182,10 @@ def oracle_disp(case, out):
         return "malformed harness output"
     evs, jobs, t = parse(out)
     limit, join, jm = t["limit"], t["x"][1], t["x"][2]
+    if t["x"][0] == 2:
+        return ("dispatch_blocking accepted a job although %d spawn_blocking jobs of the worker runtimes were running "
+                "in a dispatcher built with thread_pool_limit(%d): it must hand the closure back (one shared pool)"
+                % (limit, limit))
     if t["gauge"] > limit:
         return ("%d blocking jobs ran at once over the dispatcher's worker runtimes and dispatch_blocking although "
                 "the dispatcher was built with thread_pool_limit(%d): the submitters do not share one pool"
@@ -205,7 +227,8 @@ class C17D(C17):
     rule = ("compio_dispatcher::Dispatcher built with thread_pool_limit(1-4) only (no explicit reuse_thread_pool), "
             "1-4 worker runtimes (concurrent / sequential) running spawn_blocking jobs (20% panicking) while 1-2 "
             "threads call dispatch_blocking, join after all results / while dispatch_blocking jobs run / right "
-            "after submitting; a global gauge inside the jobs; join-after-results histories are replayed through the "
+            "after submitting; saturation probe (25%: L spawn_blocking jobs held in the pool, then every "
+            "dispatch_blocking submitter's first call must be handed back); a global gauge inside the jobs; join-after-results histories are replayed through the "
             "pool LTS; non-trivial = at least two jobs")
 
     def oracle(self, case, out):
